@@ -517,18 +517,14 @@ def rule_kind(ctx: Ctx) -> RuleReport:
         for st in walk_own(fi.node):
             if not (isinstance(st, ast.Assign) and len(st.targets) == 1 and isinstance(st.targets[0], ast.Name) and isinstance(st.value, ast.Subscript) and isinstance(st.value.value, ast.Name)):
                 continue
-            wbv = st.value.value.id
-            # the subscripted object is a workbook: assigned from load_workbook(...) somewhere in the module or a parameter that callers fill with one
-            is_wb = wbv in ("wb", "workbook") or any(isinstance(a, ast.Assign) and isinstance(a.value, ast.Call) and (dotted(a.value.func) or "").endswith("load_workbook") and any(isinstance(t, ast.Name) and t.id == wbv for t in a.targets) for a in ast.walk(fi.node))
-            if not is_wb:
-                continue
+            # a sheet lookup is recognised by what is done with its result (worksheet-only attributes, directly or one call down), not by
+            # the spelling of the workbook variable
             var = st.targets[0].id
-            n_sites += 1
-            rep.unit(fi.key)
             uses = _ws_only_uses(ctx, fi, var)
             if not uses:
-                rep.ok({"sheet_lookup": f"{fi.qual}: {norm(st)}", "worksheet_only_uses": 0})
                 continue
+            n_sites += 1
+            rep.unit(fi.key)
             for node, attr, site in uses:
                 conds, opaque, _ = path_conditions(fi.node, site, terminals=("continue", "return", "break", "raise"))
                 cs = {str(c) for c in conds} | set(opaque)
